@@ -93,6 +93,10 @@ struct upipe_mgr *lab_sink_mgr(void);
 struct upipe *lab_sink_new(const char *name, int *sink_id_p);
 /* scripting */
 void lab_sink_set_accept(struct upipe *sink, bool accept);
+/* the driver hands its handle on a pipe over to the sink, which releases it
+ * from inside its next input; lab_sink_armed tells whether that happened */
+void lab_sink_arm_release(struct upipe *sink, struct upipe *victim);
+bool lab_sink_armed(struct upipe *sink);
 /* what the sink does with requests: 0 = unhandled (goes to its probe),
  * 1 = provide immediately from E, 2 = keep silent (registered, never answered) */
 void lab_sink_set_request_mode(struct upipe *sink, int mode);
